@@ -279,128 +279,6 @@ Proof.
 Qed.
 
 (* ------------------------------------------------------------------------- *)
-(** ** equality and constructors *)
-
-Lemma eq_numeric k l1 r1 a l2 r2 b t s :
-  s <= r1 -> s <= r2 ->
-  eq_fx k (l1, r1, a) (l2, r2, b) = Ok t ->
-  (t = true <-> scaled (l1, r1, a) s = scaled (l2, r2, b) s).
-Proof.
-  intros H1 H2. unfold eq_fx, scaled.
-  destruct (Z.eqb_spec l1 l2); cbn [andb]; [|discriminate].
-  destruct (Z.eqb_spec r1 r2); [|discriminate].
-  intros [= <-]. subst.
-  pose proof (p2_pos (r2 - s) ltac:(lia)).
-  destruct (Z.eqb_spec a b); split; intros; try nia; try reflexivity; try discriminate.
-Qed.
-
-(** the number m*2^e is the value of raw q in a format with right bound r *)
-Definition num_is (m e r q : Z) : Prop :=
-  m * p2 (e - Z.min e r) = q * p2 (r - Z.min e r).
-
-Lemma ctor_num_preserves k l r m e q :
-  1 <= l - r + 1 -> num_is m e r q -> min_raw k (l - r + 1) <= q <= max_raw k (l - r + 1) ->
-  ctor_num k l r m e = Ok (l, r, q).
-Proof.
-  intros HW HN HR. unfold ctor_num, num_is in *.
-  destruct (Z.ltb_spec (l - r + 1) 1); [lia|].
-  set (s := Z.min e r) in *. rewrite HN.
-  pose proof (p2_pos (r - s) ltac:(unfold s; lia)) as P.
-  destruct (Z.leb_spec (min_raw k (l - r + 1) * p2 (r - s)) (q * p2 (r - s))); [|nia].
-  destruct (Z.leb_spec (q * p2 (r - s)) (max_raw k (l - r + 1) * p2 (r - s))); [|nia].
-  cbn [andb]. rewrite Z.quot_mul by lia. reflexivity.
-Qed.
-
-Lemma eq_num_representable k l r raw m e q :
-  1 <= l - r + 1 -> num_is m e r q -> min_raw k (l - r + 1) <= q <= max_raw k (l - r + 1) ->
-  eq_num k (l, r, raw) m e = Ok (q =? raw).
-Proof.
-  intros. unfold eq_num. rewrite (ctor_num_preserves k l r m e q) by assumption.
-  cbn [bind]. unfold eq_fx. rewrite !Z.eqb_refl. reflexivity.
-Qed.
-
-Lemma ctor_vec_unsigned_U l r w val :
-  1 <= l - r + 1 -> r <= 0 -> 1 <= w -> w - r <= l - r + 1 -> 0 <= val < p2 w ->
-  ctor_vec UFixed l r false w val = Ok (l, r, val * p2 (- r)).
-Proof.
-  intros HW Hr Hw Hfit Hv. unfold ctor_vec.
-  destruct (Z.ltb_spec (l - r + 1) 1); [lia|].
-  destruct (Z.ltb_spec (- r) 0); [lia|].
-  rewrite u_resize_ok by lia. cbn [bind].
-  unfold u_conv. cbn [vw vu fst snd].
-  destruct (Z.gtb_spec (l - r + 1) (l - r + 1)); [lia|].
-  pose proof (uscale_bound val w (- r) (l - r + 1) ltac:(lia) ltac:(lia) ltac:(lia) Hv).
-  pose proof (p2_pos (- r) ltac:(lia)).
-  rewrite mkU_ok by lia. cbn [bind]. apply fin_u_ok. reflexivity.
-Qed.
-
-Lemma ctor_vec_unsigned_S l r w val :
-  1 <= l - r + 1 -> r <= 0 -> 1 <= w -> w - r <= l - r -> 0 <= val < p2 w ->
-  ctor_vec SFixed l r false w val = Ok (l, r, val * p2 (- r)).
-Proof.
-  intros HW Hr Hw Hfit Hv. unfold ctor_vec.
-  destruct (Z.ltb_spec (l - r + 1) 1); [lia|].
-  destruct (Z.ltb_spec (- r) 0); [lia|].
-  rewrite u_resize_ok by lia. cbn [bind vw vu fst snd].
-  destruct (Z.ltb_spec (l - r + 1 - 1) (l - r + 1)); [|lia].
-  pose proof (uscale_bound val w (- r) (l - r) ltac:(lia) ltac:(lia) ltac:(lia) Hv).
-  pose proof (p2_pos (- r) ltac:(lia)).
-  replace (l - r + 1 - 1) with (l - r) in * by lia.
-  rewrite mkS_ok by (replace (l - r + 1 - 1) with (l - r) by lia; lia).
-  cbn [bind]. rewrite fin_s_ok by reflexivity.
-  rewrite sv_small by (replace (l - r + 1 - 1) with (l - r) by lia; lia). reflexivity.
-Qed.
-
-(** DEFECT (as coded): SFixed(Signed) never succeeds *)
-Lemma ctor_vec_signed_never_ok l r w val x : ctor_vec SFixed l r true w val <> Ok x.
-Proof.
-  unfold ctor_vec.
-  destruct (l - r + 1 <? 1); [discriminate|].
-  destruct (- r <? 0); [discriminate|].
-  destruct (s_resize _ _ _); cbn [bind]; discriminate.
-Qed.
-
-Lemma ctor_fix_same_right k l r sl raw :
-  wf k (sl, r, raw) -> sl <= l ->
-  ctor_fix k l r (sl, r, raw) = Ok (l, r, raw).
-Proof.
-  intros Hwf Hl. unfold ctor_fix.
-  destruct (Z.ltb_spec (l - r + 1) 1); [unfold wf in Hwf; lia|].
-  rewrite Z.eqb_refl, andb_true_r.
-  destruct (Z.eqb_spec l sl); [subst; reflexivity|].
-  destruct (Z.ltb_spec l sl); [lia|].
-  destruct (Z.gtb_spec r r); [lia|].
-  replace (r - r) with 0 by lia. rewrite p2_0, Z.mul_1_r.
-  destruct k.
-  - apply wf_S in Hwf. destruct Hwf as [W R].
-    cbn [to_vec vw vecS fst k_mk fin].
-    destruct (Z.gtb_spec (sl - r + 1 + 0) (l - r + 1)); [lia|].
-    cbn [Z.ltb]. 
-    pose proof (p2_mono (sl - r + 1 - 1) (l - r + 1 - 1) ltac:(lia)).
-    rewrite mkS_ok by lia. cbn [bind]. rewrite fin_s_ok by reflexivity.
-    rewrite sv_small by lia. reflexivity.
-  - apply wf_U in Hwf. destruct Hwf as [W R].
-    cbn [to_vec vw vecU fst k_mk fin].
-    destruct (Z.gtb_spec (sl - r + 1 + 0) (l - r + 1)); [lia|].
-    cbn [Z.ltb].
-    pose proof (p2_mono (sl - r + 1) (l - r + 1) ltac:(lia)).
-    rewrite mkU_ok by lia. cbn [bind]. rewrite fin_u_ok by reflexivity. reflexivity.
-Qed.
-
-(** DEFECT (as coded): a target with a smaller right bound is never constructed *)
-Lemma ctor_fix_smaller_right_never_ok k l r sl sr raw x :
-  r < sr -> ctor_fix k l r (sl, sr, raw) <> Ok x.
-Proof.
-  intros Hr. unfold ctor_fix.
-  destruct (l - r + 1 <? 1); [discriminate|].
-  destruct (Z.eqb_spec r sr); [lia|]. rewrite andb_false_r.
-  destruct (l <? sl); [discriminate|].
-  destruct (r >? sr); [discriminate|].
-  destruct (_ >? _); [discriminate|].
-  destruct (Z.ltb_spec (r - sr) 0); [discriminate|lia].
-Qed.
-
-(* ------------------------------------------------------------------------- *)
 (** ** slicing lemmas *)
 
 Lemma mod_mod_narrow x a b : 0 <= a <= b -> (x mod p2 b) mod p2 a = x mod p2 a.
@@ -618,38 +496,21 @@ Qed.
 Lemma spec_wrap_S w zz : spec_overflow SFixed Wrap w zz = swrap w zz.
 Proof. unfold spec_overflow, swrap, min_raw. replace (zz - - p2 (w - 1)) with (zz + p2 (w - 1)) by lia. lia. Qed.
 
-(* ------------------------------------------------------------------------- *)
-(** ** resize: the coded tree equals round-then-overflow on [resize_guard] *)
+Lemma lsbw_ok W u n : 1 <= n <= W -> lsbw (W, u) n = Ok (n, u mod p2 n).
+Proof.
+  intros H. unfold lsbw.
+  destruct (Z.leb_spec 1 n); [|lia]. destruct (Z.leb_spec n W); [|lia]. reflexivity.
+Qed.
 
-Definition is_round (rs : rstyle) := match rs with Round => true | Truncate => false end.
-Definition is_sat (os : ostyle) := match os with Saturate => true | Wrap => false end.
-
-(** the inputs on which the coded tree computes round-then-overflow *)
-Definition resize_guard (k : kind) (x : fx) (l r : Z) (rs : rstyle) (os : ostyle) : bool :=
-  let '(sl, sr, raw) := x in
-  let W := sl - sr + 1 in
-  let Wt := l - r + 1 in
-  if (sl =? l) && (sr =? r) then true
-  else
-    (* all source bits below the target LSB: msb(rest=cutoff) / [cutoff] out of range *)
-    negb ((sl <=? l) && (sr <? r) && (W <=? r - sr)) &&
-    (* the rounding carry wraps in the [selfleft <= left] branch *)
-    negb (is_sat os && is_round rs && (sl =? l) && (sr <? r)
-          && (spec_round Round sr r raw >? max_raw k Wt)) &&
-    match k with
-    | SFixed =>
-        (* Signed[2] addend / empty selected_bits for a 1 bit target *)
-        negb (is_round rs && (sr <? r) && (Wt =? 1)) &&
-        (* lsb(rest=1) of a 1 bit source *)
-        negb (is_sat os && (sl >? l) && (W =? 1)) &&
-        (* overflow >= width: -1 is "all ones" *)
-        negb (is_sat os && (sl >? l) && (W <=? sl - l) && (raw =? -1)) &&
-        (* overflow_or_full ignores the sign *)
-        negb (is_sat os && is_round rs && (sl >? l) && (sr <? r) && (raw / p2 (r - sr) =? -1))
-    | UFixed =>
-        (* msb(overflow) wider than the source *)
-        negb (is_sat os && (sl >? l) && (W <? sl - l))
-    end.
+(** (x.signed + do_round).lsb(n): the sum is formed at width max(n, 2), its low n bits are kept *)
+Lemma s_add_dr_lsb n x dr : 1 <= n -> 0 <= dr <= 1 ->
+  lsbw (s_add (n, x mod p2 n) (2, dr)) n = Ok (n, (swrap n x + dr) mod p2 n).
+Proof.
+  intros Hn Hd. unfold s_add. cbn [vw fst]. rewrite sv_mod by lia.
+  assert (sv (2, dr) = dr) as ->.
+  { unfold sv. change (p2 (2 - 1)) with 2. destruct (Z.ltb_spec dr 2); lia. }
+  rewrite lsbw_ok by lia. rewrite mod_mod_narrow by lia. reflexivity.
+Qed.
 
 Lemma spec_sat_in k w zz : min_raw k w <= zz <= max_raw k w -> spec_overflow k Saturate w zz = zz.
 Proof. unfold spec_overflow. lia. Qed.
@@ -697,6 +558,141 @@ Proof.
 Qed.
 
 
+(* ------------------------------------------------------------------------- *)
+(** ** equality and constructors *)
+
+
+Lemma eq_numeric k l1 r1 a l2 r2 b t s :
+  s <= r1 -> s <= r2 ->
+  eq_fx k (l1, r1, a) (l2, r2, b) = Ok t ->
+  (t = true <-> scaled (l1, r1, a) s = scaled (l2, r2, b) s).
+Proof.
+  intros H1 H2. unfold eq_fx, scaled.
+  destruct (Z.eqb_spec l1 l2); cbn [andb]; [|discriminate].
+  destruct (Z.eqb_spec r1 r2); [|discriminate].
+  intros [= <-]. subst.
+  pose proof (p2_pos (r2 - s) ltac:(lia)).
+  destruct (Z.eqb_spec a b); split; intros; try nia; try reflexivity; try discriminate.
+Qed.
+
+(** the number m*2^e is the value of raw q in a format with right bound r *)
+Definition num_is (m e r q : Z) : Prop :=
+  m * p2 (e - Z.min e r) = q * p2 (r - Z.min e r).
+
+Lemma ctor_num_preserves k l r m e q :
+  1 <= l - r + 1 -> num_is m e r q -> min_raw k (l - r + 1) <= q <= max_raw k (l - r + 1) ->
+  ctor_num k l r m e = Ok (l, r, q).
+Proof.
+  intros HW HN HR. unfold ctor_num, num_is in *.
+  destruct (Z.ltb_spec (l - r + 1) 1); [lia|].
+  set (s := Z.min e r) in *. rewrite HN.
+  pose proof (p2_pos (r - s) ltac:(unfold s; lia)) as P.
+  destruct (Z.leb_spec (min_raw k (l - r + 1) * p2 (r - s)) (q * p2 (r - s))); [|nia].
+  destruct (Z.leb_spec (q * p2 (r - s)) (max_raw k (l - r + 1) * p2 (r - s))); [|nia].
+  cbn [andb]. rewrite Z.quot_mul by lia. reflexivity.
+Qed.
+
+Lemma eq_num_representable k l r raw m e q :
+  1 <= l - r + 1 -> num_is m e r q -> min_raw k (l - r + 1) <= q <= max_raw k (l - r + 1) ->
+  eq_num k (l, r, raw) m e = Ok (q =? raw).
+Proof.
+  intros. unfold eq_num. rewrite (ctor_num_preserves k l r m e q) by assumption.
+  cbn [bind]. unfold eq_fx. rewrite !Z.eqb_refl. reflexivity.
+Qed.
+
+Lemma ctor_vec_unsigned_U l r w val :
+  1 <= l - r + 1 -> r <= 0 -> 1 <= w -> w - r <= l - r + 1 -> 0 <= val < p2 w ->
+  ctor_vec UFixed l r false w val = Ok (l, r, val * p2 (- r)).
+Proof.
+  intros HW Hr Hw Hfit Hv. unfold ctor_vec.
+  destruct (Z.ltb_spec (l - r + 1) 1); [lia|].
+  destruct (Z.ltb_spec (- r) 0); [lia|].
+  rewrite u_resize_ok by lia. cbn [bind].
+  unfold u_conv. cbn [vw vu fst snd].
+  destruct (Z.gtb_spec (l - r + 1) (l - r + 1)); [lia|].
+  pose proof (uscale_bound val w (- r) (l - r + 1) ltac:(lia) ltac:(lia) ltac:(lia) Hv).
+  pose proof (p2_pos (- r) ltac:(lia)).
+  rewrite mkU_ok by lia. cbn [bind]. apply fin_u_ok. reflexivity.
+Qed.
+
+Lemma ctor_vec_unsigned_S l r w val :
+  1 <= l - r + 1 -> r <= 0 -> 1 <= w -> w - r <= l - r -> 0 <= val < p2 w ->
+  ctor_vec SFixed l r false w val = Ok (l, r, val * p2 (- r)).
+Proof.
+  intros HW Hr Hw Hfit Hv. unfold ctor_vec.
+  destruct (Z.ltb_spec (l - r + 1) 1); [lia|].
+  destruct (Z.ltb_spec (- r) 0); [lia|].
+  rewrite u_resize_ok by lia. cbn [bind vw vu fst snd].
+  destruct (Z.ltb_spec (l - r + 1 - 1) (l - r + 1)); [|lia].
+  pose proof (uscale_bound val w (- r) (l - r) ltac:(lia) ltac:(lia) ltac:(lia) Hv).
+  pose proof (p2_pos (- r) ltac:(lia)).
+  replace (l - r + 1 - 1) with (l - r) in * by lia.
+  rewrite mkS_ok by (replace (l - r + 1 - 1) with (l - r) by lia; lia).
+  cbn [bind]. rewrite fin_s_ok by reflexivity.
+  rewrite sv_small by (replace (l - r + 1 - 1) with (l - r) by lia; lia). reflexivity.
+Qed.
+
+(** DEFECT (as coded): SFixed(Signed) never succeeds *)
+Lemma ctor_vec_signed_S l r w val :
+  1 <= l - r + 1 -> r <= 0 -> 1 <= w -> w - r <= l - r + 1 -> - p2 (w - 1) <= val < p2 (w - 1) ->
+  ctor_vec SFixed l r true w val = Ok (l, r, val * p2 (- r)).
+Proof.
+  intros HW Hr Hw Hfit Hv. unfold ctor_vec.
+  destruct (Z.ltb_spec (l - r + 1) 1); [lia|].
+  destruct (Z.ltb_spec (- r) 0); [lia|].
+  rewrite s_resize_ok by lia. cbn [bind].
+  rewrite conv_fin_S by lia.
+  pose proof (scale_bound val (w - 1) (- r) (l - r + 1 - 1) ltac:(lia) ltac:(lia) ltac:(lia) Hv).
+  pose proof (p2_pos (- r) ltac:(lia)).
+  rewrite swrap_small by lia. reflexivity.
+Qed.
+
+(** T(x) for an object of a contained format (left >= source left, right <= source right) *)
+Lemma ctor_fix_contained k l r sl sr raw :
+  wf k (sl, sr, raw) -> sl <= l -> r <= sr ->
+  ctor_fix k l r (sl, sr, raw) = Ok (l, r, raw * p2 (sr - r)).
+Proof.
+  intros Hwf Hl Hr. unfold ctor_fix.
+  destruct (Z.ltb_spec (l - r + 1) 1); [unfold wf in Hwf; lia|].
+  destruct ((l =? sl) && (r =? sr)) eqn:E.
+  - apply andb_true_iff in E. destruct E as [E1 E2]. apply Z.eqb_eq in E1, E2. subst.
+    replace (sr - sr) with 0 by lia. rewrite p2_0, Z.mul_1_r. reflexivity.
+  - destruct (Z.ltb_spec l sl); [lia|]. destruct (Z.gtb_spec r sr); [lia|].
+    pose proof (p2_pos (sr - r) ltac:(lia)) as Pz.
+    destruct k; cbn [k_resize to_vec k_conv fin].
+    + apply wf_S in Hwf. destruct Hwf as [W R].
+      rewrite s_resize_ok by lia. cbn [bind]. rewrite conv_fin_S by lia.
+      pose proof (scale_bound raw (sl - sr + 1 - 1) (sr - r) (l - r + 1 - 1) ltac:(lia) ltac:(lia) ltac:(lia) R).
+      rewrite swrap_small by lia. reflexivity.
+    + apply wf_U in Hwf. destruct Hwf as [W R].
+      rewrite u_resize_ok by lia. cbn [bind].
+      pose proof (uscale_bound raw (sl - sr + 1) (sr - r) (l - r + 1) ltac:(lia) ltac:(lia) ltac:(lia) R).
+      rewrite conv_fin_U by lia. reflexivity.
+Qed.
+
+(** the proposed [==] fix answers numerically for EVERY number inside the range *)
+Lemma eq_num_eqfix_numeric k l r raw m e :
+  1 <= l - r + 1 ->
+  let s := Z.min e r in
+  min_raw k (l - r + 1) * p2 (r - s) <= m * p2 (e - s) <= max_raw k (l - r + 1) * p2 (r - s) ->
+  eq_num_eqfix k (l, r, raw) m e = Ok (m * p2 (e - s) =? raw * p2 (r - s)).
+Proof.
+  intros HW s HR. unfold eq_num_eqfix. fold s.
+  pose proof (p2_pos (r - s) ltac:(unfold s; lia)) as P.
+  destruct (Z.eqb_spec ((m * p2 (e - s)) mod p2 (r - s)) 0) as [E|E].
+  - apply Z.mod_divide in E; [|lia]. destruct E as [q E].
+    assert (N : num_is m e r q) by (unfold num_is; fold s; exact E).
+    assert (R : min_raw k (l - r + 1) <= q <= max_raw k (l - r + 1)) by (rewrite E in HR; nia).
+    rewrite (eq_num_representable k l r raw m e q HW N R).
+    rewrite E. f_equal.
+    destruct (Z.eqb_spec q raw), (Z.eqb_spec (q * p2 (r - s)) (raw * p2 (r - s))); try reflexivity; nia.
+  - f_equal. destruct (Z.eqb_spec (m * p2 (e - s)) (raw * p2 (r - s))) as [E2|]; [|reflexivity].
+    exfalso. apply E. rewrite E2. apply Z_mod_mult.
+Qed.
+
+(* ------------------------------------------------------------------------- *)
+(** ** resize: the coded tree equals round-then-overflow *)
+
 Section S.
   Variables (sl sr raw l r : Z).
   Let W := sl - sr + 1.
@@ -722,126 +718,7 @@ Section S.
     (z <- s_conv Wt (n, x mod p2 n) ;; fin_s l r z) = Ok (l, r, swrap n x).
   Proof. exact (conv_fin_S n x l r). Qed.
 
-  (** branch [selfleft <= left] *)
-  Lemma resize_S_le rs os :
-    sl <= l -> negb ((sl =? l) && (sr =? r)) = true ->
-    resize_guard SFixed (sl, sr, raw) l r rs os = true ->
-    resize_s (sl, sr, raw) l r rs os = Ok (spec_resize SFixed (sl, sr, raw) l r rs os).
-  Proof.
-    intros Hle Hne G. unfold resize_s, spec_resize. unfold resize_guard in G.
-    fold W Wt in G |- *.
-    destruct ((sl =? l) && (sr =? r)); [discriminate|]. clear Hne.
-    destruct (Z.ltb_spec Wt 1); [lia|].
-    destruct (Z.gtb_spec sl l); [lia|].
-    destruct (Z.geb_spec sr r) as [Hsr|Hsr].
-    - (* extension only *)
-      rewrite s_resize_ok by (fold W; unfold W, Wt in *; lia). cbn [bind].
-      rewrite fin_s_ok by reflexivity.
-      pose proof (scale_bound raw (W - 1) (sr - r) (Wt - 1) ltac:(lia) ltac:(lia)
-                    ltac:(unfold W, Wt; lia) HR) as B.
-      pose proof (p2_pos (sr - r) ltac:(lia)).
-      rewrite sv_small by lia.
-      rewrite spec_round_ge by lia. rewrite spec_any_in_S by lia. reflexivity.
-    - (* cutoff *)
-      destruct (Z.leb_spec sl l); [|lia]. destruct (Z.ltb_spec sr r); [|lia].
-      destruct (Z.leb_spec W (r - sr)); cbn [andb negb] in G; [discriminate|].
-      assert (Hc : 1 <= r - sr < W) by lia.
-      assert (Hn : W - (r - sr) <= Wt) by (unfold W, Wt; lia).
-      pose proof (div_range raw (W - 1) (r - sr) ltac:(lia) HR) as RF.
-      replace (W - 1 - (r - sr)) with (W - (r - sr) - 1) in RF by lia.
-      pose proof (p2_mono (W - (r - sr) - 1) (Wt - 1) ltac:(lia)) as PM.
-      set (c := r - sr) in *. set (f := raw / p2 c) in *.
-      assert (Hdo : do_round (vecS W raw) c = Ok (rnd_inc raw c)).
-      { unfold vecS. rewrite do_round_ok by lia. rewrite rnd_inc_mod by lia. reflexivity. }
-      pose proof (rnd_inc_range raw c) as RI.
-      destruct rs.
-      + (* truncate *)
-        unfold vecS. rewrite msbr_low by lia. cbn [bind]. fold f.
-        rewrite ext_S by lia. cbn [bind].
-        rewrite cf by lia.
-        rewrite spec_round_trunc by lia. fold c f.
-        rewrite swrap_small by lia. rewrite spec_any_in_S by lia. reflexivity.
-      + (* round *)
-        rewrite Hdo. cbn [bind].
-        unfold vecS. rewrite msbr_low by lia. cbn [bind]. fold f.
-        rewrite ext_S by lia. cbn [bind].
-        destruct (Z.eqb_spec Wt 1) as [E1|E1]; cbn [is_round andb negb] in G;
-          [rewrite !andb_false_r in G; discriminate|].
-        rewrite s_add_dr by lia.
-        rewrite cf by lia.
-        rewrite swrap_swrap_add by lia.
-        rewrite spec_round_round by lia. fold c f.
-        destruct os.
-        * rewrite spec_wrap_S. reflexivity.
-        * cbn [is_sat andb] in G.
-          destruct (Z.eqb_spec sl l) as [El|El].
-          -- rewrite spec_round_round in G by lia. fold c f in G.
-             destruct (Z.gtb_spec (f + rnd_inc raw c) (max_raw SFixed Wt)) as [Hgt|Hgt];
-               cbn [andb negb] in G; [discriminate|].
-             unfold max_raw in Hgt.
-             rewrite swrap_small by lia.
-             rewrite spec_sat_in by (unfold min_raw, max_raw; lia). reflexivity.
-          -- assert (W - c - 1 <= Wt - 2) by (unfold W, Wt, c; lia).
-             pose proof (p2_mono (W - c - 1) (Wt - 2) ltac:(lia)).
-             pose proof (p2_pred (Wt - 1) ltac:(lia)) as E2. replace (Wt - 1 - 1) with (Wt - 2) in E2 by lia.
-             pose proof (p2_pos (Wt - 2) ltac:(lia)).
-             rewrite swrap_small by lia.
-             rewrite spec_sat_in by (unfold min_raw, max_raw; lia). reflexivity.
-  Qed.
-
-  (** branch [selfleft > left], WRAP *)
-  Lemma resize_S_gt_wrap rs :
-    l < sl ->
-    resize_guard SFixed (sl, sr, raw) l r rs Wrap = true ->
-    resize_s (sl, sr, raw) l r rs Wrap = Ok (spec_resize SFixed (sl, sr, raw) l r rs Wrap).
-  Proof.
-    intros Hgt G. unfold resize_s, spec_resize. unfold resize_guard in G.
-    fold W Wt in G |- *.
-    destruct (Z.eqb_spec sl l); [lia|]. cbn [andb] in G |- *.
-    destruct (Z.ltb_spec Wt 1); [lia|].
-    destruct (Z.gtb_spec sl l); [|lia].
-    rewrite spec_wrap_S.
-    destruct (Z.geb_spec sr r) as [Hsr|Hsr].
-    - rewrite spec_round_ge by lia.
-      destruct (Z.geb_spec (sl - l) W) as [Hov|Hov].
-      + rewrite mkS_ok by (pose proof (p2_pos (Wt - 1) ltac:(lia)); lia). cbn [bind].
-        rewrite fin_s_ok by reflexivity.
-        rewrite sv_small by (pose proof (p2_pos (Wt - 1) ltac:(lia)); lia).
-        replace (sr - r) with ((sr - r - Wt) + Wt) by lia.
-        rewrite p2_add by (unfold W, Wt in *; lia).
-        rewrite Z.mul_assoc. rewrite swrap_multiple by lia. reflexivity.
-      + rewrite lsbr_S by lia. cbn [bind].
-        unfold s_resize. cbn [vw fst].
-        destruct (Z.gtb_spec (W - (sl - l) + (sr - r)) (W - (sl - l) + (sr - r))); [lia|].
-        rewrite sv_mod by lia.
-        pose proof (swrap_range (W - (sl - l)) raw ltac:(lia)) as SR.
-        pose proof (scale_bound _ (W - (sl - l) - 1) (sr - r) (W - (sl - l) + (sr - r) - 1)
-                      ltac:(lia) ltac:(lia) ltac:(lia) SR) as B.
-        pose proof (p2_pos (sr - r) ltac:(lia)).
-        rewrite mkS_ok by lia. cbn [bind].
-        rewrite fin_s_ok by (unfold W, Wt; lia).
-        rewrite sv_small by lia.
-        replace Wt with ((W - (sl - l)) + (sr - r)) by (unfold W, Wt; lia).
-        rewrite swrap_scale by lia. reflexivity.
-    - set (c := r - sr) in *. set (ov := sl - l) in *. set (f := raw / p2 c) in *.
-      assert (EW : W - ov - c = Wt) by (unfold W, Wt, ov, c; lia).
-      assert (Hdo : do_round (vecS W raw) c = Ok (rnd_inc raw c)).
-      { unfold vecS. rewrite do_round_ok by lia. rewrite rnd_inc_mod by lia. reflexivity. }
-      pose proof (rnd_inc_range raw c) as RI.
-      destruct rs.
-      + rewrite lsbr_S by lia. cbn [bind]. rewrite msbr_low by lia. cbn [bind].
-        rewrite EW. fold f. rewrite cf by lia.
-        rewrite spec_round_trunc by lia. reflexivity.
-      + rewrite Hdo. cbn [bind].
-        rewrite lsbr_S by lia. cbn [bind]. rewrite msbr_low by lia. cbn [bind].
-        rewrite EW. fold f.
-        destruct (Z.ltb_spec sr r); [|lia].
-        destruct (Z.eqb_spec Wt 1) as [E1|E1]; cbn [is_round is_sat andb negb] in G;
-          [rewrite ?andb_false_r in G; discriminate|].
-        rewrite s_add_dr by lia. rewrite cf by lia.
-        rewrite swrap_swrap_add by lia.
-        rewrite spec_round_round by lia. reflexivity.
-  Qed.
+  Hypothesis Hgt : l < sl.
 
   Lemma sign_S : vbit (vecS W raw) (W - 1) = Ok (raw <? 0).
   Proof.
@@ -903,53 +780,99 @@ Section S.
       rewrite swrap_small by lia; reflexivity.
   Qed.
 
-  Ltac simp_in G := cbn [is_sat is_round andb negb] in G; rewrite ?andb_true_r, ?andb_false_r in G;
-                    cbn [andb negb] in G.
 
-  (** branch [selfleft > left], SATURATE *)
-  Lemma resize_S_gt_sat rs :
-    l < sl ->
-    resize_guard SFixed (sl, sr, raw) l r rs Saturate = true ->
-    resize_s (sl, sr, raw) l r rs Saturate = Ok (spec_resize SFixed (sl, sr, raw) l r rs Saturate).
+  Lemma vecS_zero : (vu (vecS W raw) =? 0) = (raw =? 0).
   Proof.
-    intros Hgt G. unfold resize_s, spec_resize. unfold resize_guard in G.
-    fold W Wt in G |- *.
-    destruct (Z.eqb_spec sl l); [lia|]. cbn [andb] in G |- *.
-    destruct (Z.ltb_spec Wt 1); [lia|].
-    destruct (Z.gtb_spec sl l); [|lia].
-    destruct (Z.leb_spec sl l); [lia|].
-    destruct (Z.eqb_spec W 1) as [|HW1]; simp_in G; [discriminate|].
-    assert (H2 : 2 <= W) by lia.
+    unfold vecS. cbn [vu snd].
+    pose proof (p2_pos (W - 1) ltac:(lia)) as Ph. pose proof (p2_pred W HW) as EW.
+    destruct (Z.ltb_spec raw 0).
+    - assert (raw mod p2 W = raw + p2 W) as -> by (symmetry; apply (Z.mod_unique _ _ (-1)); lia).
+      destruct (Z.eqb_spec (raw + p2 W) 0), (Z.eqb_spec raw 0); try reflexivity; lia.
+    - rewrite Z.mod_small by lia. reflexivity.
+  Qed.
+
+  (** subtree [selfleft > left], WRAP *)
+  Lemma resize_S_gt_wrap rs :
+    resize_s_gt (sl, sr, raw) l r rs Wrap = Ok (spec_resize SFixed (sl, sr, raw) l r rs Wrap).
+  Proof.
+    unfold resize_s_gt, spec_resize. fold W Wt.
+    rewrite spec_wrap_S.
+    destruct (Z.geb_spec sr r) as [Hsr|Hsr].
+    - rewrite spec_round_ge by lia.
+      destruct (Z.geb_spec (sl - l) W) as [Hov|Hov].
+      + rewrite mkS_ok by (pose proof (p2_pos (Wt - 1) ltac:(lia)); lia). cbn [bind].
+        rewrite fin_s_ok by reflexivity.
+        rewrite sv_small by (pose proof (p2_pos (Wt - 1) ltac:(lia)); lia).
+        replace (sr - r) with ((sr - r - Wt) + Wt) by lia.
+        rewrite p2_add by (unfold W, Wt in *; lia).
+        rewrite Z.mul_assoc. rewrite swrap_multiple by lia. reflexivity.
+      + rewrite lsbr_S by lia. cbn [bind].
+        unfold s_resize. cbn [vw fst].
+        destruct (Z.gtb_spec (W - (sl - l) + (sr - r)) (W - (sl - l) + (sr - r))); [lia|].
+        rewrite sv_mod by lia.
+        pose proof (swrap_range (W - (sl - l)) raw ltac:(lia)) as SR.
+        pose proof (scale_bound _ (W - (sl - l) - 1) (sr - r) (W - (sl - l) + (sr - r) - 1)
+                      ltac:(lia) ltac:(lia) ltac:(lia) SR) as B.
+        pose proof (p2_pos (sr - r) ltac:(lia)).
+        rewrite mkS_ok by lia. cbn [bind].
+        rewrite fin_s_ok by (unfold W, Wt; lia).
+        rewrite sv_small by lia.
+        replace Wt with ((W - (sl - l)) + (sr - r)) by (unfold W, Wt; lia).
+        rewrite swrap_scale by lia. reflexivity.
+    - set (c := r - sr) in *. set (ov := sl - l) in *. set (f := raw / p2 c) in *.
+      assert (EW : W - ov - c = Wt) by (unfold W, Wt, ov, c; lia).
+      assert (Hdo : do_round (vecS W raw) c = Ok (rnd_inc raw c)).
+      { unfold vecS. rewrite do_round_ok by lia. rewrite rnd_inc_mod by lia. reflexivity. }
+      pose proof (rnd_inc_range raw c) as RI.
+      destruct rs.
+      + rewrite lsbr_S by lia. cbn [bind]. rewrite msbr_low by lia. cbn [bind].
+        rewrite EW. fold f. rewrite cf by lia.
+        rewrite spec_round_trunc by lia. reflexivity.
+      + rewrite Hdo. cbn [bind].
+        rewrite lsbr_S by lia. cbn [bind]. rewrite msbr_low by lia. cbn [bind].
+        rewrite EW. fold f.
+        rewrite s_add_dr_lsb by lia. cbn [bind]. rewrite cf by lia.
+        rewrite swrap_swrap_add by lia.
+        rewrite spec_round_round by lia. reflexivity.
+  Qed.
+
+  (** subtree [selfleft > left], SATURATE *)
+  Lemma resize_S_gt_sat rs :
+    resize_s_gt (sl, sr, raw) l r rs Saturate = Ok (spec_resize SFixed (sl, sr, raw) l r rs Saturate).
+  Proof.
+    unfold resize_s_gt, spec_resize. fold W Wt.
     set (ov := sl - l) in *.
-    set (obc := Z.min ov (W - 1)).
-    assert (Hobc : 1 <= obc <= W - 1) by (unfold obc, ov; lia).
-    destruct (flags_S obc H2 Hobc) as (EM & EO & EU).
     rewrite sign_S. cbn [bind].
-    rewrite lsbr_S by lia. cbn [bind].
-    fold obc. rewrite EM. cbn [bind]. rewrite EO, EU. clear EM EO EU.
-    set (T := W - 1 - obc) in *.
-    pose proof (p2_pos T ltac:(unfold T; lia)) as PT.
     pose proof (p2_pos (Wt - 1) ltac:(lia)) as PWt.
     assert (Hmm : min_raw SFixed Wt <= max_raw SFixed Wt) by (unfold min_raw, max_raw; lia).
-    destruct (Z.geb_spec sr r) as [Hsr|Hsr].
-    - (* no right shift *)
+    destruct (Z.geb_spec ov W) as [Hfar|Hnear].
+    - (* the target lies below the source LSB: any non zero value saturates *)
+      cbn [bind]. unfold nonzero. rewrite vecS_zero.
+      destruct (Z.geb_spec sr r) as [Hsr|Hsr]; [|unfold W, Wt, ov in *; lia].
       rewrite spec_round_ge by lia.
       set (zz := sr - r) in *. pose proof (p2_pos zz ltac:(unfold zz; lia)) as Pz.
-      destruct (Z.leb_spec W ov) as [Hov|Hov].
-      + (* overflow >= width *)
-        assert (T = 0) as ET by (unfold T, obc; lia). rewrite ET, p2_0 in *.
-        rewrite mkS_ok by lia. cbn [bind]. rewrite mn_ok, mx_ok. cbn [bind].
-        rewrite choose_S.
-        destruct (Z.eqb_spec raw (-1)); simp_in G; [discriminate|].
-        assert (Hz : Wt <= zz) by (unfold Wt, zz, W, ov in *; lia).
-        pose proof (p2_mono (Wt - 1) zz ltac:(lia)).
-        destruct (Z.ltb_spec raw (- (1))).
-        * rewrite spec_sat_lo by (unfold min_raw; try exact Hmm; nia). reflexivity.
-        * destruct (Z.leb_spec 1 raw).
-          -- rewrite spec_sat_hi by (unfold max_raw; try exact Hmm; nia). reflexivity.
-          -- assert (raw = 0) as -> by lia. rewrite Z.mul_0_l.
-             rewrite swrap_small by lia. rewrite spec_sat_in by (unfold min_raw, max_raw; lia). reflexivity.
-      + assert (obc = ov) as Eo by (unfold obc; lia).
+      destruct (Z.leb_spec W ov); [|lia].
+      rewrite mkS_ok by lia. cbn [bind]. rewrite mn_ok, mx_ok. cbn [bind].
+      rewrite choose_S.
+      assert (Hz : Wt <= zz) by (unfold Wt, zz, W, ov in *; lia).
+      pose proof (p2_mono (Wt - 1) zz ltac:(lia)).
+      destruct (Z.ltb_spec raw 0); cbn [negb andb].
+      + rewrite spec_sat_lo by (unfold min_raw; try exact Hmm; nia). reflexivity.
+      + destruct (Z.eqb_spec raw 0) as [->|]; cbn [negb].
+        * rewrite Z.mul_0_l. rewrite swrap_small by lia.
+          rewrite spec_sat_in by (unfold min_raw, max_raw; lia). reflexivity.
+        * rewrite spec_sat_hi by (unfold max_raw; try exact Hmm; nia). reflexivity.
+    - assert (H2 : 2 <= W) by (unfold ov in *; lia).
+      assert (Hobc : 1 <= ov <= W - 1) by (unfold ov in *; lia).
+      destruct (flags_S ov H2 Hobc) as (EM & EO & EU).
+      rewrite lsbr_S by lia. cbn [bind].
+      rewrite EM. cbn [bind]. rewrite EO, EU. clear EM EO EU.
+      set (T := W - 1 - ov) in *.
+      pose proof (p2_pos T ltac:(unfold T; lia)) as PT.
+      destruct (Z.geb_spec sr r) as [Hsr|Hsr].
+      + rewrite spec_round_ge by lia.
+        set (zz := sr - r) in *. pose proof (p2_pos zz ltac:(unfold zz; lia)) as Pz.
+        destruct (Z.leb_spec W ov) as [Hov|Hov]; [lia|].
         assert (ET : T + 1 = W - ov) by (unfold T; lia).
         assert (ETz : T + zz = Wt - 1) by (unfold T, zz, Wt, W, ov in *; lia).
         rewrite lsbr_S by lia. cbn [bind].
@@ -968,65 +891,84 @@ Section S.
           -- rewrite (swrap_small (W - ov) raw) by (replace (W - ov - 1) with T by lia; lia).
              rewrite swrap_small by nia.
              rewrite spec_sat_in by (unfold min_raw, max_raw; nia). reflexivity.
-    - (* right shift by c *)
-      set (c := r - sr) in *. set (f := raw / p2 c) in *.
-      assert (EW : W - ov - c = Wt) by (unfold W, Wt, ov, c; lia).
-      assert (obc = ov) as Eo by (unfold obc; lia).
-      assert (ETc : T = c + (Wt - 1)) by (unfold T; lia).
-      pose proof (p2_pos c ltac:(unfold c; lia)) as Pc.
-      pose proof (p2_add c (Wt - 1) ltac:(unfold c; lia) ltac:(lia)) as EP. rewrite <- ETc in EP.
-      assert (Hdo : do_round (vecS W raw) c = Ok (rnd_inc raw c)).
-      { unfold vecS. rewrite do_round_ok by lia. rewrite rnd_inc_mod by lia. reflexivity. }
-      pose proof (rnd_inc_range raw c) as RI.
-      assert (FU : raw < - p2 T -> f < - p2 (Wt - 1)).
-      { intros. apply Z.div_lt_upper_bound; nia. }
-      assert (FO : p2 T <= raw -> p2 (Wt - 1) <= f).
-      { intros. apply Z.div_le_lower_bound; nia. }
-      assert (FI : - p2 T <= raw < p2 T -> - p2 (Wt - 1) <= f < p2 (Wt - 1)).
-      { intros HI. rewrite ETc in HI. pose proof (div_range raw (c + (Wt - 1)) c ltac:(lia) HI) as D.
-        replace (c + (Wt - 1) - c) with (Wt - 1) in D by lia. exact D. }
-      destruct (Z.ltb_spec sr r); [|lia].
-      destruct rs.
-      + rewrite mn_ok, mx_ok. cbn [bind].
-        rewrite lsbr_S by lia. cbn [bind]. rewrite msbr_low by lia. cbn [bind].
-        rewrite EW. fold f. rewrite choose_S.
-        rewrite spec_round_trunc by lia. fold c f.
-        destruct (Z.ltb_spec raw (- p2 T)).
-        * rewrite spec_sat_lo by (unfold min_raw; try exact Hmm; lia). reflexivity.
-        * destruct (Z.leb_spec (p2 T) raw).
-          -- rewrite spec_sat_hi by (unfold max_raw; try exact Hmm; lia). reflexivity.
-          -- rewrite swrap_small by lia.
-             rewrite spec_sat_in by (unfold min_raw, max_raw; lia). reflexivity.
-      + destruct (Z.eqb_spec Wt 1) as [E1|E1]; simp_in G; [discriminate|].
-        rewrite Hdo. cbn [bind].
-        rewrite lsbr_S by lia. cbn [bind]. rewrite msbr_low by lia. cbn [bind].
-        replace (W - (ov + 1) - c) with (Wt - 1) by lia. fold f.
-        rewrite mn_ok, mx_ok. cbn [bind].
-        rewrite lsbr_S by lia. cbn [bind]. rewrite msbr_low by lia. cbn [bind].
-        rewrite EW. fold f.
-        rewrite s_add_dr by lia. rewrite choose_S.
-        rewrite swrap_swrap_add by lia.
-        rewrite spec_round_round by lia. fold c f.
-        unfold all_ones. cbn [vu vw fst snd].
-        pose proof (p2_pred (Wt - 1) ltac:(lia)) as E2.
-        pose proof (p2_pos (Wt - 1 - 1) ltac:(lia)) as P2.
-        destruct (Z.ltb_spec raw (- p2 T)).
-        * rewrite spec_sat_lo by (unfold min_raw; try exact Hmm; lia). reflexivity.
-        * destruct (Z.leb_spec (p2 T) raw); cbn [orb].
-          -- rewrite spec_sat_hi by (unfold max_raw; try exact Hmm; lia). reflexivity.
-          -- specialize (FI ltac:(lia)).
-             rewrite (mod_half f (p2 (Wt - 1))) by lia.
-             destruct (Z.eqb_spec f (-1)); simp_in G; [discriminate|].
-             destruct (Z.ltb_spec f 0).
-             ++ destruct (Z.eqb_spec (f + p2 (Wt - 1)) (p2 (Wt - 1) - 1)); [lia|].
-                rewrite swrap_small by lia.
+      + set (c := r - sr) in *. set (f := raw / p2 c) in *.
+        assert (EW : W - ov - c = Wt) by (unfold W, Wt, ov, c; lia).
+        assert (ETc : T = c + (Wt - 1)) by (unfold T; lia).
+        pose proof (p2_pos c ltac:(unfold c; lia)) as Pc.
+        pose proof (p2_add c (Wt - 1) ltac:(unfold c; lia) ltac:(lia)) as EP. rewrite <- ETc in EP.
+        assert (Hdo : do_round (vecS W raw) c = Ok (rnd_inc raw c)).
+        { unfold vecS. rewrite do_round_ok by lia. rewrite rnd_inc_mod by lia. reflexivity. }
+        pose proof (rnd_inc_range raw c) as RI.
+        assert (FU : raw < - p2 T -> f < - p2 (Wt - 1)).
+        { intros. apply Z.div_lt_upper_bound; nia. }
+        assert (FO : p2 T <= raw -> p2 (Wt - 1) <= f).
+        { intros. apply Z.div_le_lower_bound; nia. }
+        assert (FI : - p2 T <= raw < p2 T -> - p2 (Wt - 1) <= f < p2 (Wt - 1)).
+        { intros HI. rewrite ETc in HI. pose proof (div_range raw (c + (Wt - 1)) c ltac:(lia) HI) as D.
+          replace (c + (Wt - 1) - c) with (Wt - 1) in D by lia. exact D. }
+        destruct rs.
+        * rewrite mn_ok, mx_ok. cbn [bind].
+          rewrite lsbr_S by lia. cbn [bind]. rewrite msbr_low by lia. cbn [bind].
+          rewrite EW. fold f. rewrite choose_S.
+          rewrite spec_round_trunc by lia. fold c f.
+          destruct (Z.ltb_spec raw (- p2 T)).
+          -- rewrite spec_sat_lo by (unfold min_raw; try exact Hmm; lia). reflexivity.
+          -- destruct (Z.leb_spec (p2 T) raw).
+             ++ rewrite spec_sat_hi by (unfold max_raw; try exact Hmm; lia). reflexivity.
+             ++ rewrite swrap_small by lia.
                 rewrite spec_sat_in by (unfold min_raw, max_raw; lia). reflexivity.
-             ++ destruct (Z.eqb_spec f (p2 (Wt - 1) - 1)).
+        * rewrite Hdo. cbn [bind].
+          rewrite lsbr_S by lia. cbn [bind]. rewrite msbr_low by lia. cbn [bind].
+          rewrite EW. fold f.
+          rewrite mx_ok. cbn [bind]. rewrite mn_ok. cbn [bind].
+          rewrite s_add_dr_lsb by lia. cbn [bind]. rewrite choose_S.
+          rewrite swrap_swrap_add by lia.
+          rewrite sv_mod by lia. rewrite (sv_small Wt (p2 (Wt - 1) - 1)) by lia.
+          rewrite spec_round_round by lia. fold c f.
+          destruct (Z.ltb_spec raw (- p2 T)).
+          -- rewrite spec_sat_lo by (unfold min_raw; try exact Hmm; lia). reflexivity.
+          -- destruct (Z.leb_spec (p2 T) raw); cbn [orb].
+             ++ rewrite spec_sat_hi by (unfold max_raw; try exact Hmm; lia). reflexivity.
+             ++ specialize (FI ltac:(lia)).
+                rewrite (swrap_small Wt f) by lia.
+                destruct (Z.eqb_spec f (p2 (Wt - 1) - 1)).
                 ** rewrite spec_sat_hi by (unfold max_raw; try exact Hmm; lia). reflexivity.
                 ** rewrite swrap_small by lia.
                    rewrite spec_sat_in by (unfold min_raw, max_raw; lia). reflexivity.
   Qed.
 End S.
+
+(** SFixed.resize_fn = round then overflow, for every well formed object and valid target *)
+Theorem resize_S_spec sl sr raw l r rs os :
+  wf SFixed (sl, sr, raw) -> 1 <= l - r + 1 ->
+  resize_s (sl, sr, raw) l r rs os = Ok (spec_resize SFixed (sl, sr, raw) l r rs os).
+Proof.
+  intros Hwf HWt. apply wf_S in Hwf. destruct Hwf as [HW HR].
+  unfold resize_s.
+  destruct ((sl =? l) && (sr =? r)) eqn:E.
+  - apply andb_true_iff in E. destruct E as [E1 E2]. apply Z.eqb_eq in E1, E2. subst l r.
+    unfold spec_resize. rewrite spec_round_ge by lia.
+    replace (sr - sr) with 0 by lia. rewrite p2_0, Z.mul_1_r.
+    rewrite spec_any_in_S by lia. reflexivity.
+  - destruct (Z.ltb_spec (l - r + 1) 1); [lia|].
+    destruct (Z.gtb_spec sl l) as [Hgt|Hle].
+    + destruct os; [apply resize_S_gt_wrap | apply resize_S_gt_sat]; assumption || lia.
+    + destruct (Z.geb_spec sr r) as [Hsr|Hsr].
+      * rewrite s_resize_ok by lia. cbn [bind]. rewrite fin_s_ok by reflexivity.
+        pose proof (scale_bound raw (sl - sr + 1 - 1) (sr - r) (l - r + 1 - 1) ltac:(lia) ltac:(lia) ltac:(lia) HR) as B.
+        pose proof (p2_pos (sr - r) ltac:(lia)).
+        rewrite sv_small by lia. unfold spec_resize.
+        rewrite spec_round_ge by lia. rewrite spec_any_in_S by lia. reflexivity.
+      * (* widened by one integer bit, then the subtree for selfleft > left *)
+        rewrite s_resize_ok by lia. cbn [bind]. rewrite p2_0, Z.mul_1_r.
+        rewrite fin_s_ok by lia.
+        pose proof (p2_mono (sl - sr + 1 - 1) (l + 2 - sr - 1) ltac:(lia)) as PM.
+        rewrite sv_small by lia. cbn [bind].
+        assert (HR' : - p2 (l + 1 - sr + 1 - 1) <= raw < p2 (l + 1 - sr + 1 - 1)).
+        { replace (l + 1 - sr + 1 - 1) with (l + 2 - sr - 1) by lia. lia. }
+        change (spec_resize SFixed (sl, sr, raw) l r rs os) with (spec_resize SFixed (l + 1, sr, raw) l r rs os).
+        destruct os; [apply resize_S_gt_wrap | apply resize_S_gt_sat]; assumption || lia.
+Qed.
 
 Lemma spec_wrap_U w zz : spec_overflow UFixed Wrap w zz = zz mod p2 w.
 Proof. unfold spec_overflow, min_raw. rewrite Z.sub_0_r, Z.add_0_r. reflexivity. Qed.
@@ -1046,9 +988,6 @@ Section U.
   Hypothesis HR : 0 <= raw < p2 W.
   Hypothesis HWt : 1 <= Wt.
 
-  Ltac simp_in G := cbn [is_sat is_round andb negb] in G; rewrite ?andb_true_r, ?andb_false_r in G;
-                    cbn [andb negb] in G.
-
   Lemma cfu n x : 1 <= n <= Wt -> 0 <= x < p2 n ->
     (z <- u_conv Wt (n, x) ;; fin_u l r z) = Ok (l, r, x).
   Proof. exact (conv_fin_U n x l r). Qed.
@@ -1062,69 +1001,12 @@ Section U.
   Lemma do_U c : 1 <= c < W -> do_round (vecU W raw) c = Ok (rnd_inc raw c).
   Proof. intros. unfold vecU. apply do_round_ok; lia. Qed.
 
-  Lemma resize_U_le rs os :
-    sl <= l -> negb ((sl =? l) && (sr =? r)) = true ->
-    resize_guard UFixed (sl, sr, raw) l r rs os = true ->
-    resize_u (sl, sr, raw) l r rs os = Ok (spec_resize UFixed (sl, sr, raw) l r rs os).
-  Proof.
-    intros Hle Hne G. unfold resize_u, spec_resize. unfold resize_guard in G.
-    fold W Wt in G |- *.
-    destruct ((sl =? l) && (sr =? r)); [discriminate|]. clear Hne.
-    destruct (Z.ltb_spec Wt 1); [lia|].
-    destruct (Z.gtb_spec sl l); [lia|].
-    destruct (Z.geb_spec sr r) as [Hsr|Hsr].
-    - rewrite u_resize_ok by (fold W; unfold W, Wt in *; lia). cbn [bind].
-      rewrite fin_u_ok by reflexivity.
-      pose proof (uscale_bound raw W (sr - r) Wt ltac:(lia) ltac:(lia) ltac:(unfold W, Wt; lia) HR) as B.
-      pose proof (p2_pos (sr - r) ltac:(lia)).
-      rewrite spec_round_ge by lia. rewrite spec_any_in_U by lia. reflexivity.
-    - destruct (Z.leb_spec sl l); [|lia]. destruct (Z.ltb_spec sr r); [|lia].
-      destruct (Z.leb_spec W (r - sr)); cbn [andb negb] in G; [discriminate|].
-      set (c := r - sr) in *. set (f := raw / p2 c) in *.
-      assert (Hc : 1 <= c < W) by (unfold c; lia).
-      assert (Hn : W - c <= Wt) by (unfold W, Wt, c; lia).
-      pose proof (udiv_range raw W c ltac:(lia) HR) as RF. fold f in RF.
-      pose proof (p2_mono (W - c) Wt ltac:(lia)) as PM.
-      pose proof (rnd_inc_range raw c) as RI.
-      assert (EX : u_resize (W - c, f) Wt 0 = Ok (Wt, f)).
-      { unfold u_resize. cbn [vw vu fst snd]. destruct (Z.gtb_spec (W - c + 0) Wt); [lia|].
-        rewrite p2_0, Z.mul_1_r. apply mkU_ok; lia. }
-      destruct rs.
-      + unfold vecU. rewrite msbr_ok by lia. cbn [bind]. fold f. rewrite EX. cbn [bind].
-        rewrite cfu by lia.
-        rewrite spec_round_trunc by lia. fold c f. rewrite spec_any_in_U by lia. reflexivity.
-      + rewrite do_U by lia. cbn [bind].
-        unfold vecU. rewrite msbr_ok by lia. cbn [bind]. fold f. rewrite EX. cbn [bind].
-        rewrite u_add_dr by lia.
-        pose proof (p2_pos Wt ltac:(lia)).
-        rewrite cfu by (try apply Z.mod_pos_bound; lia).
-        rewrite spec_round_round by lia. fold c f.
-        destruct os.
-        * rewrite spec_wrap_U. reflexivity.
-        * cbn [is_sat is_round andb] in G.
-          destruct (Z.eqb_spec sl l) as [El|El].
-          -- rewrite spec_round_round in G by lia. fold c f in G.
-             destruct (Z.gtb_spec (f + rnd_inc raw c) (max_raw UFixed Wt)) as [Hgt|Hgt];
-               cbn [andb negb] in G; [discriminate|].
-             unfold max_raw in Hgt.
-             rewrite Z.mod_small by lia.
-             rewrite spec_sat_in by (unfold min_raw, max_raw; lia). reflexivity.
-          -- pose proof (p2_mono (W - c) (Wt - 1) ltac:(unfold W, Wt, c; lia)).
-             pose proof (p2_pred Wt ltac:(lia)) as E2. pose proof (p2_pos (Wt - 1) ltac:(lia)).
-             rewrite Z.mod_small by lia.
-             rewrite spec_sat_in by (unfold min_raw, max_raw; lia). reflexivity.
-  Qed.
+  Hypothesis Hgt : l < sl.
 
   Lemma resize_U_gt_wrap rs :
-    l < sl ->
-    resize_guard UFixed (sl, sr, raw) l r rs Wrap = true ->
-    resize_u (sl, sr, raw) l r rs Wrap = Ok (spec_resize UFixed (sl, sr, raw) l r rs Wrap).
+    resize_u_gt (sl, sr, raw) l r rs Wrap = Ok (spec_resize UFixed (sl, sr, raw) l r rs Wrap).
   Proof.
-    intros Hgt G. unfold resize_u, spec_resize. clear G.
-    fold W Wt.
-    destruct (Z.eqb_spec sl l); [lia|]. cbn [andb].
-    destruct (Z.ltb_spec Wt 1); [lia|].
-    destruct (Z.gtb_spec sl l); [|lia].
+    unfold resize_u_gt, spec_resize. fold W Wt.
     rewrite spec_wrap_U.
     pose proof (p2_pos Wt ltac:(lia)) as PWt.
     destruct (Z.geb_spec sr r) as [Hsr|Hsr].
@@ -1162,53 +1044,56 @@ Section U.
   Qed.
 
   Lemma resize_U_gt_sat rs :
-    l < sl ->
-    resize_guard UFixed (sl, sr, raw) l r rs Saturate = true ->
-    resize_u (sl, sr, raw) l r rs Saturate = Ok (spec_resize UFixed (sl, sr, raw) l r rs Saturate).
+    resize_u_gt (sl, sr, raw) l r rs Saturate = Ok (spec_resize UFixed (sl, sr, raw) l r rs Saturate).
   Proof.
-    intros Hgt G. unfold resize_u, spec_resize. unfold resize_guard in G.
-    fold W Wt in G |- *.
-    destruct (Z.eqb_spec sl l); [lia|]. cbn [andb] in G |- *.
-    destruct (Z.ltb_spec Wt 1); [lia|].
-    destruct (Z.gtb_spec sl l); [|lia].
+    unfold resize_u_gt, spec_resize. fold W Wt.
     set (ov := sl - l) in *.
-    destruct (Z.ltb_spec W ov) as [|Hov]; simp_in G; [rewrite ?andb_false_r in G; discriminate|].
-    clear G.
-    set (T := W - ov) in *.
+    set (obc := Z.min ov W).
+    set (T := W - obc) in *.
+    assert (Hobc : 1 <= obc <= W) by (unfold obc, ov; lia).
     pose proof (p2_pos T ltac:(unfold T; lia)) as PT.
     pose proof (p2_pos Wt ltac:(lia)) as PWt.
     assert (Hmm : min_raw UFixed Wt <= max_raw UFixed Wt) by (unfold min_raw, max_raw; lia).
-    assert (EM : msbw (vecU W raw) ov = Ok (ov, raw / p2 T)).
-    { unfold vecU, msbw. destruct (Z.leb_spec 1 ov); [|unfold ov; lia]. destruct (Z.leb_spec ov W); [|lia]. reflexivity. }
-    assert (EN : nonzero (ov, raw / p2 T) = (p2 T <=? raw)).
-    { unfold nonzero. cbn [vu snd]. rewrite (top_zero raw T ov) by (try (replace (T + ov) with W by (unfold T; lia); exact HR); unfold T, ov; lia).
+    assert (EM : msbw (vecU W raw) obc = Ok (obc, raw / p2 T)).
+    { unfold vecU, msbw. destruct (Z.leb_spec 1 obc); [|lia]. destruct (Z.leb_spec obc W); [|lia]. reflexivity. }
+    assert (EN : nonzero (obc, raw / p2 T) = (p2 T <=? raw)).
+    { unfold nonzero. cbn [vu snd].
+      rewrite (top_zero raw T obc) by (try (replace (T + obc) with W by (unfold T; lia); exact HR); unfold T; lia).
       destruct (Z.ltb_spec raw (p2 T)), (Z.leb_spec (p2 T) raw); try reflexivity; lia. }
     rewrite EM. cbn [bind]. rewrite EN. clear EM EN.
     destruct (Z.geb_spec sr r) as [Hsr|Hsr].
     - rewrite spec_round_ge by lia.
       set (zz := sr - r) in *. pose proof (p2_pos zz ltac:(unfold zz; lia)) as Pz.
-      assert (ETz : T + zz = Wt) by (unfold T, zz, Wt, W, ov; lia).
-      pose proof (p2_add T zz ltac:(unfold T; lia) ltac:(unfold zz; lia)) as EP. rewrite ETz in EP.
+      assert (ETz : Wt <= T + zz) by (unfold T, obc, zz, Wt, W, ov in *; lia).
+      pose proof (p2_add T zz ltac:(unfold T; lia) ltac:(unfold zz; lia)) as EP.
+      pose proof (p2_mono Wt (T + zz) ltac:(lia)) as PM.
       assert (ED : (if W <=? ov then mkU Wt 0 else y <- lsbr (vecU W raw) ov ;; u_resize y Wt zz)
                    = Ok (Wt, (raw mod p2 T) * p2 zz)).
       { destruct (Z.leb_spec W ov).
-        - assert (T = 0) as E0 by (unfold T; lia). rewrite E0, p2_0, Z.mod_1_r, Z.mul_0_l.
+        - assert (T = 0) as E0 by (unfold T, obc; lia). rewrite E0, p2_0, Z.mod_1_r, Z.mul_0_l.
           apply mkU_ok; lia.
-        - rewrite lsbr_U by lia. cbn [bind]. fold T.
+        - assert (ET : T = W - ov) by (unfold T, obc; lia).
+          rewrite lsbr_U by lia. cbn [bind]. rewrite <- ET.
           unfold u_resize. cbn [vw vu fst snd].
-          destruct (Z.gtb_spec (T + zz) Wt); [lia|].
+          destruct (Z.gtb_spec (T + zz) Wt); [unfold T, obc, zz, Wt, W, ov in *; lia|].
           pose proof (Z.mod_pos_bound raw (p2 T) ltac:(lia)) as MB.
+          assert (T + zz = Wt) as EE by (unfold T, obc, zz, Wt, W, ov in *; lia). rewrite EE in EP.
           apply mkU_ok; [lia|]. nia. }
       rewrite ED. cbn [bind]. rewrite mxu_ok. cbn [bind].
       destruct (Z.leb_spec (p2 T) raw).
       + rewrite cfu by lia.
         rewrite spec_sat_hi by (unfold max_raw; try exact Hmm; nia). reflexivity.
       + rewrite (Z.mod_small raw (p2 T)) by lia.
-        rewrite cfu by nia.
-        rewrite spec_sat_in by (unfold min_raw, max_raw; nia). reflexivity.
+        destruct (Z.leb_spec W ov).
+        * assert (T = 0) as E0 by (unfold T, obc; lia). rewrite E0, p2_0 in *.
+          assert (raw = 0) as -> by lia. rewrite Z.mul_0_l.
+          rewrite cfu by lia. rewrite spec_sat_in by (unfold min_raw, max_raw; lia). reflexivity.
+        * assert (T + zz = Wt) as EE by (unfold T, obc, zz, Wt, W, ov in *; lia). rewrite EE in EP.
+          rewrite cfu by nia.
+          rewrite spec_sat_in by (unfold min_raw, max_raw; nia). reflexivity.
     - set (c := r - sr) in *. set (f := raw / p2 c) in *.
       assert (EW : W - ov - c = Wt) by (unfold W, Wt, ov, c; lia).
-      assert (ETc : T = c + Wt) by (unfold T; lia).
+      assert (ETc : T = c + Wt) by (unfold T, obc; lia).
       pose proof (p2_pos c ltac:(unfold c; lia)) as Pc.
       pose proof (p2_add c Wt ltac:(unfold c; lia) ltac:(lia)) as EP. rewrite <- ETc in EP.
       pose proof (rnd_inc_range raw c) as RI.
@@ -1243,114 +1128,64 @@ Section U.
   Qed.
 End U.
 
-(* ------------------------------------------------------------------------- *)
-(** ** resize: the theorem, its refutations, exactness of the guard on a box *)
-
-Theorem resize_spec_guarded k x l r rs os :
-  wf k x -> 1 <= l - r + 1 -> resize_guard k x l r rs os = true ->
-  resize k x l r rs os = Ok (spec_resize k x l r rs os).
+Theorem resize_U_spec sl sr raw l r rs os :
+  wf UFixed (sl, sr, raw) -> 1 <= l - r + 1 ->
+  resize_u (sl, sr, raw) l r rs os = Ok (spec_resize UFixed (sl, sr, raw) l r rs os).
 Proof.
-  destruct x as [[sl sr] raw]. intros Hwf HWt G.
+  intros Hwf HWt. apply wf_U in Hwf. destruct Hwf as [HW HR].
+  unfold resize_u.
   destruct ((sl =? l) && (sr =? r)) eqn:E.
-  - apply andb_true_iff in E. destruct E as [E1 E2].
-    apply Z.eqb_eq in E1, E2. subst l r.
-    assert (R : resize k (sl, sr, raw) sl sr rs os = Ok (sl, sr, raw)).
-    { destruct k; cbn [resize]; unfold resize_s, resize_u; rewrite !Z.eqb_refl; reflexivity. }
-    rewrite R. unfold spec_resize. rewrite spec_round_ge by lia.
+  - apply andb_true_iff in E. destruct E as [E1 E2]. apply Z.eqb_eq in E1, E2. subst l r.
+    unfold spec_resize. rewrite spec_round_ge by lia.
     replace (sr - sr) with 0 by lia. rewrite p2_0, Z.mul_1_r.
-    destruct k.
-    + apply wf_S in Hwf. rewrite spec_any_in_S by lia. reflexivity.
-    + apply wf_U in Hwf. rewrite spec_any_in_U by lia. reflexivity.
-  - destruct k; cbn [resize].
-    + apply wf_S in Hwf. destruct Hwf as [HW HR].
-      destruct (Z.leb_spec sl l).
-      * apply resize_S_le; try assumption. rewrite E. reflexivity.
-      * destruct os; [apply resize_S_gt_wrap|apply resize_S_gt_sat]; assumption.
-    + apply wf_U in Hwf. destruct Hwf as [HW HR].
-      destruct (Z.leb_spec sl l).
-      * apply resize_U_le; try assumption. rewrite E. reflexivity.
-      * destruct os; [apply resize_U_gt_wrap|apply resize_U_gt_sat]; assumption.
+    rewrite spec_any_in_U by lia. reflexivity.
+  - destruct (Z.ltb_spec (l - r + 1) 1); [lia|].
+    destruct (Z.gtb_spec sl l) as [Hgt|Hle].
+    + destruct os; [apply resize_U_gt_wrap | apply resize_U_gt_sat]; assumption || lia.
+    + destruct (Z.geb_spec sr r) as [Hsr|Hsr].
+      * rewrite u_resize_ok by lia. cbn [bind]. rewrite fin_u_ok by reflexivity.
+        pose proof (uscale_bound raw (sl - sr + 1) (sr - r) (l - r + 1) ltac:(lia) ltac:(lia) ltac:(lia) HR) as B.
+        pose proof (p2_pos (sr - r) ltac:(lia)).
+        unfold spec_resize.
+        rewrite spec_round_ge by lia. rewrite spec_any_in_U by lia. reflexivity.
+      * rewrite u_resize_ok by lia. cbn [bind]. rewrite p2_0, Z.mul_1_r.
+        rewrite fin_u_ok by lia. cbn [bind].
+        pose proof (p2_mono (sl - sr + 1) (l + 1 - sr + 1) ltac:(lia)) as PM.
+        change (spec_resize UFixed (sl, sr, raw) l r rs os) with (spec_resize UFixed (l + 1, sr, raw) l r rs os).
+        destruct os; [apply resize_U_gt_wrap | apply resize_U_gt_sat]; assumption || lia.
 Qed.
 
-Definition res_fx_eqb (a b : res fx) : bool := out_eqb (out_fx a) (out_fx b).
-
-(** model = spec, as a boolean *)
-Definition meets_spec (k : kind) (x : fx) (l r : Z) (rs : rstyle) (os : ostyle) : bool :=
-  res_fx_eqb (resize k x l r rs os) (Ok (spec_resize k x l r rs os)).
-
-Lemma meets_spec_false k x l r rs os :
-  meets_spec k x l r rs os = false -> resize k x l r rs os <> Ok (spec_resize k x l r rs os).
+Theorem resize_spec_full k x l r rs os :
+  wf k x -> 1 <= l - r + 1 -> resize k x l r rs os = Ok (spec_resize k x l r rs os).
 Proof.
-  unfold meets_spec, res_fx_eqb. intros H E. rewrite E in H.
-  destruct (spec_resize k x l r rs os) as [[a b] c]. cbn in H. rewrite !Z.eqb_refl in H. discriminate.
+  destruct x as [[sl sr] raw]. destruct k; cbn [resize]; [apply resize_S_spec | apply resize_U_spec].
 Qed.
 
-(** a departure: well formed source, valid target, model <> spec *)
-Definition departs (k : kind) (x : fx) (l r : Z) (rs : rstyle) (os : ostyle) : Prop :=
-  wf k x /\ 1 <= l - r + 1 /\ resize k x l r rs os <> Ok (spec_resize k x l r rs os).
+(** the only rejection of the code: a target format with left < right *)
+Lemma resize_rejects_malformed k sl sr raw l r rs os :
+  1 <= sl - sr + 1 -> l - r + 1 < 1 -> resize k (sl, sr, raw) l r rs os = Err EAssert.
+Proof.
+  intros H0 H. destruct k; cbn [resize]; unfold resize_s, resize_u;
+    (destruct ((sl =? l) && (sr =? r)) eqn:E;
+     [apply andb_true_iff in E; destruct E as [E1 E2]; apply Z.eqb_eq in E1, E2; subst;
+      lia | destruct (Z.ltb_spec (l - r + 1) 1); [reflexivity|lia]]).
+Qed.
 
-Ltac witness := split; [cbv; intuition discriminate | split; [lia | apply meets_spec_false; vm_compute; reflexivity]].
-
-(** SFixed[3:-1](7.5).resize(3, 0, ROUND, SATURATE) = -8, and the UFixed twin: the rounding carry wraps *)
-Lemma refuted_round_carry_S : departs SFixed (3, -1, 15) 3 0 Round Saturate.
-Proof. witness. Qed.
-Lemma refuted_round_carry_U : departs UFixed (2, -1, 15) 2 0 Round Saturate.
-Proof. witness. Qed.
-(** SFixed[1:0](1).resize(5, 3, ROUND) raises: all source bits are below the target LSB *)
-Lemma refuted_cutoff_ge_width : departs SFixed (1, 0, 1) 5 3 Round Wrap /\ departs UFixed (1, 0, 1) 5 3 Truncate Wrap.
-Proof. split; witness. Qed.
-(** a one bit SFixed target cannot be rounded to *)
-Lemma refuted_round_target_width_1 : departs SFixed (0, -1, 0) 0 0 Round Wrap.
-Proof. witness. Qed.
-(** a one bit SFixed source cannot be saturated into a lower format *)
-Lemma refuted_saturate_source_width_1 : departs SFixed (0, 0, 0) (-1) (-1) Truncate Saturate.
-Proof. witness. Qed.
-(** UFixed saturation with the target more than one position below the source LSB raises *)
-Lemma refuted_saturate_overflow_gt_width : departs UFixed (0, 0, 0) (-2) (-2) Truncate Saturate.
-Proof. witness. Qed.
-(** SFixed[1:0](-1) saturated into [-1:-1] gives 0 instead of the minimum *)
-Lemma refuted_saturate_minus_one : departs SFixed (1, 0, -1) (-1) (-1) Truncate Saturate.
-Proof. witness. Qed.
-(** SFixed[1:-2](-0.25).resize(0, -1, ROUND, SATURATE) gives the maximum *)
-Lemma refuted_saturate_round_negative : departs SFixed (1, -2, -1) 0 (-1) Round Saturate.
-Proof. witness. Qed.
-
-Lemma resize_spec_refuted :
-  exists k x l r rs os, wf k x /\ 1 <= l - r + 1 /\ resize k x l r rs os <> Ok (spec_resize k x l r rs os).
-Proof. exists SFixed, (3, -1, 15), 3, 0, Round, Saturate. exact refuted_round_carry_S. Qed.
-
-(** exactness of the guard on the box of all formats with lo <= right <= left <= hi *)
-Fixpoint zrange (lo : Z) (n : nat) : list Z :=
-  match n with O => [] | S m => lo :: zrange (lo + 1) m end.
-
-Definition box_formats (lo hi : Z) : list (Z * Z) :=
-  let zs := zrange lo (Z.to_nat (hi - lo + 1)) in
-  flat_map (fun l => flat_map (fun r => if r <=? l then [(l, r)] else []) zs) zs.
-
-Definition raws_of (k : kind) (w : Z) : list Z :=
-  zrange (min_raw k w) (Z.to_nat (max_raw k w - min_raw k w + 1)).
-
-Definition guard_exact_on_box (lo hi : Z) : bool :=
-  let fs := box_formats lo hi in
-  forallb (fun k =>
-    forallb (fun s => let '(sl, sr) := s in
-      forallb (fun raw =>
-        forallb (fun t => let '(l, r) := t in
-          forallb (fun rs => forallb (fun os =>
-            Bool.eqb (resize_guard k (sl, sr, raw) l r rs os) (meets_spec k (sl, sr, raw) l r rs os))
-            [Wrap; Saturate]) [Truncate; Round]) fs)
-        (raws_of k (sl - sr + 1))) fs)
-    [SFixed; UFixed].
-
-Lemma guard_exact_box_3 : guard_exact_on_box (-3) 3 = true.
-Proof. vm_compute. reflexivity. Qed.
-
-(** the guard is not vacuous and not trivial *)
-Lemma guard_nonvacuous :
-  resize_guard SFixed (3, -2, -19) 1 0 Round Saturate = true /\
-  resize_guard UFixed (3, -2, 45) 1 0 Round Saturate = true /\
-  resize_guard SFixed (1, -2, -7) 3 (-1) Round Wrap = true /\
-  resize_guard SFixed (3, -1, 15) 3 0 Round Saturate = false.
+(** regressions: the inputs that failed before the C19 fix commits now give the spec value *)
+Lemma regressions :
+  resize SFixed (3, -1, 15) 3 0 Round Saturate = Ok (3, 0, 7) /\
+  resize UFixed (2, -1, 15) 2 0 Round Saturate = Ok (2, 0, 7) /\
+  resize SFixed (1, 0, 1) 5 3 Round Wrap = Ok (5, 3, 0) /\
+  resize UFixed (1, 0, 1) 5 3 Truncate Wrap = Ok (5, 3, 0) /\
+  resize SFixed (0, -1, 0) 0 0 Round Wrap = Ok (0, 0, 0) /\
+  resize SFixed (0, 0, 0) (-1) (-1) Truncate Saturate = Ok (-1, -1, 0) /\
+  resize UFixed (0, 0, 0) (-2) (-2) Truncate Saturate = Ok (-2, -2, 0) /\
+  resize SFixed (1, 0, -1) (-1) (-1) Truncate Saturate = Ok (-1, -1, -1) /\
+  resize SFixed (1, -2, -1) 0 (-1) Round Saturate = Ok (0, -1, 0) /\
+  ctor_vec SFixed 3 (-1) true 3 (-2) = Ok (3, -1, -4) /\
+  ctor_fix SFixed 4 (-2) (3, -1, -5) = Ok (4, -2, -10) /\
+  ctor_fix UFixed 4 (-2) (3, -1, 5) = Ok (4, -2, 10) /\
+  ctor_num SFixed 60 0 (2 ^ 59 + 1) 0 = Ok (60, 0, 2 ^ 59 + 1).
 Proof. vm_compute. repeat split. Qed.
 
 (* ------------------------------------------------------------------------- *)
